@@ -67,6 +67,12 @@ def representatives(seed):
         arrs[f"f-{n}"] = np.where(k_ % 5 == 0, np.nan, (k_ - 7) / 3.0)
         arrs[f"b-{n}"] = (k_ % 3 == 0)
         arrs[f"m-neg-{n}"] = (-(k_ % 129) * 7).astype("timedelta64[ns]")
+    # a regular grid of times (a PRF of exactly 1 kHz / 1 MHz / 1 Hz: every difference a multiple of a coarser unit) whose FIRST time is not
+    for n in (16, 17, 300):
+        k_ = np.arange(n, dtype="int64")
+        for unit, step in (("ms", 10**6), ("us", 10**3), ("s", 10**9), ("2ms", 2 * 10**6)):
+            arrs[f"M-grid-{unit}-{n}"] = t0 + (k_ * step).astype("timedelta64[ns]")
+            arrs[f"m-grid-{unit}-{n}"] = (137 + k_ * step).astype("timedelta64[ns]")
     for k, a in arrs.items():
         dims = ["x", "y"][: a.ndim]
         out[f"array:{k}"] = V(dims, a, {"units": "µs"})
